@@ -68,6 +68,9 @@ def check_stateless(db, chk, rule: str, modnames: Iterable[str], scope: Optional
             gc_ = H.generators_consumed_twice(f)
             chk.ob(rule, f"{mn}:{q}: no generator is consumed twice", not gc_, mod.loc(f), found=gc_ or "none", accepted="a generator feeds one loop / one materialisation",
                    why="len(list(gen)) in a log statement exhausts the generator: the loop that follows emits nothing", key=f"{mn}:{q}|generator-twice", nontrivial=False)
+            lb_ = H.late_bound_lazies(f)
+            chk.ob(rule, f"{mn}:{q}: no generator / lambda that reads a loop-bound variable is kept beyond its iteration", not lb_, mod.loc(f), found=lb_ or "none", accepted="materialise inside the iteration ([...] instead of (...))",
+                   why="a generator stored per rank and consumed after the rank loop computes every rank's rows from the LAST rank's frame", key=f"{mn}:{q}|late-binding", nontrivial=False)
             sv_ = H.shared_mutable_values(f)
             chk.ob(rule, f"{mn}:{q}: no container is built whose keys / slots share one mutable object", not sv_, mod.loc(f), found=sv_ or "none", accepted="one fresh list / dict per key ({k: [] for k in keys}, defaultdict(list))",
                    why="dict.fromkeys(ranks, []) gives every rank the SAME list: what is appended for one rank shows up under all of them", key=f"{mn}:{q}|shared-mutable", nontrivial=False)
